@@ -41,7 +41,12 @@ Definition set_keys (p : prim) (s : st) : list string :=
     match checks s !! (n, cid) with
     | Some o =>
       if bool_decide (c_svc o = c_svc x) then []
-      else if bool_decide (c_svc o = "") then k_svc <$> node_names n s else [k_svc (c_svcname o)]
+      else if bool_decide (c_svc o = "") then k_svc <$> node_names n s
+           else k_svc (c_svcname o) ::
+                match services s !! (n, c_svc o) with
+                | Some sv => if bool_decide (sv_name sv = c_svcname o) then [] else [k_svc (sv_name sv)]
+                | None => []
+                end
     | None => []
     end
   | PChkDel n cid =>
@@ -246,24 +251,42 @@ Proof.
     set (s0 := match checks s !! (n, cid) with
                | Some o => if bool_decide (c_svc o = c_svc x) then s
                            else if bool_decide (c_svc o = "") then bump_names (names_of (svcs_of_node n s)) i s
-                                else ibump (k_svc (c_svcname o)) i s
+                                else let s2 := ibump (k_svc (c_svcname o)) i s in
+                                     match services s !! (n, c_svc o) with
+                                     | Some sv => if bool_decide (sv_name sv = c_svcname o) then s2 else ibump (k_svc (sv_name sv)) i s2
+                                     | None => s2
+                                     end
                | None => s end).
     assert (Hd0 : dt s0 = dt s).
     { unfold s0. destruct (checks s !! (n, cid)) as [o|]; [|reflexivity].
-      repeat (destruct (bool_decide _)); rewrite ?dt_bump_names, ?dt_ibump; reflexivity. }
+      destruct (bool_decide (c_svc o = c_svc x)); [reflexivity|].
+      destruct (bool_decide (c_svc o = "")); [rewrite dt_bump_names; reflexivity|].
+      cbv zeta. destruct (services s !! (n, c_svc o)) as [sv|]; [destruct (bool_decide _)|]; rewrite ?dt_ibump; reflexivity. }
     assert (HB0 : IdxBnd i s0).
-    { unfold s0. destruct (checks s !! (n, cid)) as [o|]; [|exact HB]. repeat (destruct (bool_decide _)); bnd. }
+    { unfold s0. destruct (checks s !! (n, cid)) as [o|]; [|exact HB].
+      destruct (bool_decide (c_svc o = c_svc x)); [exact HB|].
+      destruct (bool_decide (c_svc o = "")); [bnd|].
+      cbv zeta. destruct (services s !! (n, c_svc o)) as [sv|]; [destruct (bool_decide _)|]; bnd. }
     assert (H0 : index s0 !! k =
                  if bool_decide (k ∈ match checks s !! (n, cid) with
                                      | Some o => if bool_decide (c_svc o = c_svc x) then []
-                                                 else if bool_decide (c_svc o = "") then k_svc <$> node_names n s else [k_svc (c_svcname o)]
+                                                 else if bool_decide (c_svc o = "") then k_svc <$> node_names n s
+                                                      else k_svc (c_svcname o) ::
+                                                           match services s !! (n, c_svc o) with
+                                                           | Some sv => if bool_decide (sv_name sv = c_svcname o) then [] else [k_svc (sv_name sv)]
+                                                           | None => []
+                                                           end
                                      | None => [] end)
                  then Some i else index s !! k).
     { unfold s0. destruct (checks s !! (n, cid)) as [o|]; [|rewrite bd_nil; reflexivity].
       destruct (bool_decide (c_svc o = c_svc x)); [rewrite bd_nil; reflexivity|].
       destruct (bool_decide (c_svc o = "")).
       - rewrite lookup_bump_names by exact HB. reflexivity.
-      - rewrite lookup_ibump by exact HB. rewrite bd_cons, bd_nil, orb_false_r. reflexivity. }
+      - cbv zeta. rewrite bd_cons. destruct (services s !! (n, c_svc o)) as [sv|]; [destruct (bool_decide (sv_name sv = c_svcname o))|].
+        + rewrite lookup_ibump by exact HB. rewrite bd_nil, orb_false_r. reflexivity.
+        + rewrite lookup_ibump by bnd. rewrite lookup_ibump by exact HB. rewrite bd_cons, bd_nil, orb_false_r.
+          repeat (case_bool_decide; cbn [orb]); reflexivity.
+        + rewrite lookup_ibump by exact HB. rewrite bd_nil, orb_false_r. reflexivity. }
     assert (Hn0 : names_of (svcs_of_node n s0) = names_of (svcs_of_node n s)) by (apply names_of_node_dt; rewrite Hd0; reflexivity).
     rewrite Hn0.
     destruct (bool_decide (c_svc x = "")).
